@@ -226,6 +226,18 @@ def _protection(S, addr, size, is_write, kind):
             chk(z3.simplify(va + i), z3.Not(aligned), partial=bool(is_write) and i > 0)
 
 
+def translate_check(S, addr, is_write):
+    """the TranslateAddress() call of SetExclusiveMonitors (read) / ExclusiveMonitorsPass (write): one protection
+    check at the address itself, with the current privilege (no-op when the MPU is not modelled)"""
+    k = S.cfg.get('mpu_k')
+    if k is None:
+        return
+    from . import pmsa
+    o = pmsa.translate_p(S, addr, _b(S.privileged()), z3.BoolVal(bool(is_write)), k)
+    S.unpredictable(z3.And(z3.Not(aborted(S)), o['unpred']))
+    _data_abort(S, o['fault'], addr, is_write, o['fs'], False)
+
+
 def mem_u_read(S, addr, size):
     """MemU[addr,size]: records the alignment-fault abort; returns the value read when no fault"""
     _data_abort(S, S.mem_u_fault(addr, size), addr, False, 0b00001, True)
